@@ -22,6 +22,7 @@ TIERS = {
 }
 
 FAULT_OPS = ("flip", "overwrite", "insert", "delete", "duplicate", "swap", "truncate_garbage", "splice", "hostile", "repeat")
+EXTRA_OPS = ("pipelined_tail",)
 HOSTILE = (b"\x7f\xff\xff\xff", b"\xff\xff\xff\xfe", b"\xff\xff\xff\xff\xff", b"\xff\xff\xff\xff\x0f", b"\x80\x00\x00\x00",
            b"\xff\xff\xff\xff\x07", b"\x7f\xff", b"\xff\xfe", b"\x80\x80\x80\x80\x80", b"\xfe\xff\xff\xff\x0f",
            b"\x7f\xff\xff\xff\xff\xff\xff\xff", b"\x80\x00\x00\x00\x00\x00\x00\x00", b"\x00\x00\xff\xff\xff\xff\xff\xff")
@@ -141,13 +142,14 @@ def _open_source(kind: str, data: bytes, budget, chunks):
 LAST_SITE = None
 
 
-def classify(cls, reader, writer, data: bytes, kind: str, chunks, budget, ok_excs) -> tuple[str | None, str]:
+def classify(cls, reader, writer, data: bytes, kind: str, chunks, budget, ok_excs, in_thread: bool = False) -> tuple[str | None, str]:
     """-> (violation signature or None, outcome label for stats)."""
     global LAST_SITE
     LAST_SITE = None
     src = _open_source(kind, data, budget, chunks)
     try:
-        val = reader(src)
+        # (now and then the decode runs in a freshly started thread, not the one that imported kio)
+        val = core.call_in_thread(reader, src) if in_thread else reader(src)
     except ok_excs as e:
         return None, f"rejected:{type(e).__name__}"
     except streams.SimBudgetExceeded:
@@ -249,6 +251,13 @@ def run_task(task: dict) -> dict:
                         ops = [("random", len(data))]
                     else:
                         data, ops = corrupt(rng, base, hot, other)
+                        if rng.random() < 0.08:
+                            # pipelined data behind the damaged message: > 32 KiB of valid UTF-8 (a reader that
+                            # slurps "the rest of the stream" for a negative length then returns something
+                            # its own writer rejects)
+                            tail = (b"kafka-" * 12000)[:rng.choice((32768, 40000, 70000))]
+                            data += tail
+                            ops = ops + [("pipelined_tail", len(tail))]
                     r = rng.random()
                     kind = "sim" if r < 0.62 else ("bytesio" if r < 0.82 else ("buffered" if r < 0.92 else "raw"))
                     chunks = None
@@ -263,8 +272,11 @@ def run_task(task: dict) -> dict:
                             chunks.append(c)
                             left -= c
                     budget = workload.read_budget(len(data), cls)
-                    sig, label = classify(cls, reader, writer, data, kind, chunks, budget, ok_excs)
+                    in_thread = rng.random() < 0.06
+                    sig, label = classify(cls, reader, writer, data, kind, chunks, budget, ok_excs, in_thread)
                     stats.inc("cases")
+                    if in_thread:
+                        stats.inc("cases_decoded_in_a_fresh_thread")
                     outcomes.inc(label)
                     for op in ops:
                         stats.inc(f"fault_{op[0]}")
@@ -288,7 +300,7 @@ def run_task(task: dict) -> dict:
                             "signature": sig,
                             "run_seed": run_seed,
                             "site": LAST_SITE,
-                            "scenario": {"class": qn, "input_hex": data.hex(), "kind": kind, "chunks": chunks,
+                            "scenario": {"class": qn, "input_hex": data.hex(), "kind": kind, "chunks": chunks, "thread": in_thread,
                                          "provenance": {"base_instance": workload_tree(g), "fault_ops": ops}},
                         })
             for k, v in outcomes.items():
@@ -320,13 +332,16 @@ def evaluate(scenario: dict):
     reader, writer = entity_reader(cls), entity_writer(cls)
     budget = workload.read_budget(len(data), cls)
     with core.wall_backstop(60):
-        sig, _ = classify(cls, reader, writer, data, scenario["kind"], scenario.get("chunks"), budget, _ok_excs())
+        sig, _ = classify(cls, reader, writer, data, scenario["kind"], scenario.get("chunks"), budget, _ok_excs(),
+                          bool(scenario.get("thread")))
     if sig == "wall":
         sig = confirm_wall(cls, reader, data, scenario["kind"], scenario.get("chunks"))
     return sig
 
 
 def candidates(scenario: dict):
+    if scenario.get("thread"):
+        yield {**scenario, "thread": False}
     if scenario["kind"] != "sim":
         yield {**scenario, "kind": "sim", "chunks": None}
     data = bytes.fromhex(scenario["input_hex"])
@@ -382,6 +397,7 @@ def finalize(stats, tier, runs, distinct, samples, wall):
         "discarded_by_prepass": stats.get("discarded_by_prepass", 0),
         "faults_fired": {k: v for k, v in sorted(stats.items()) if k.startswith("fault_")},
         "source_kinds": {k: v for k, v in sorted(stats.items()) if k.startswith("source_")},
+        "cases_decoded_in_a_fresh_thread": stats.get("cases_decoded_in_a_fresh_thread", 0),
         "outcomes": {k: v for k, v in sorted(stats.items()) if k.startswith("outcome_")},
         "wall_alarms": stats.get("wall_alarms", 0),
         "simulated_time_s": 0,
@@ -400,7 +416,7 @@ def finalize(stats, tier, runs, distinct, samples, wall):
                         "(round-trip identity, property C01, is broken on this tree; this check cannot judge it)")
     elif n_bad:
         problems.append(f"{n_bad} generated instances discarded by the clean pre-pass")
-    for op in FAULT_OPS:
+    for op in FAULT_OPS + EXTRA_OPS:
         if not stats.get(f"fault_{op}"):
             problems.append(f"fault kind {op} never fired")
     if not stats.get("outcome_returned"):
